@@ -1,14 +1,19 @@
 //! Kani harnesses (external crate, path dependency on /repo).
 #![feature(allocator_api)]
+#![recursion_limit = "512"]
 #![allow(unused, static_mut_refs)]
 #[path = "../../common/stubs.rs"]
 pub mod stubs;
 #[path = "../../common/util.rs"]
 #[macro_use]
 pub mod util;
+#[macro_use]
+pub mod common;
 #[cfg(kani)]
 mod c17;
 #[cfg(kani)]
 mod c18;
 #[cfg(kani)]
 mod c19;
+#[cfg(kani)]
+mod probe;
